@@ -5,7 +5,8 @@
  *  GET_INT     p_ini_file_parameter_int == reference decimal reading of V (pinifile.h: 'usual form'; atoi-like: optional sign, decimal
  *              digits, leading zeros are decimal, '0x..' reads as 0, anything after the digits is ignored, 0 if no digits)
  *  GET_BOOL    "true"/"TRUE"/"1" -> TRUE, "false"/"FALSE"/"0" -> FALSE (the documented spellings; others unspecified)
- *  GET_LIST    "{a b c}" -> the blank-separated items in order; "{}" -> empty list
+ *  GET_LIST    "{a b c}" -> the blank-separated items, element t of the list = t-th item of the text (blanks/tabs allowed after
+ *              '{', before '}' and repeated between items); "{}" -> empty list
  *  GET_DOUBLE  unsigned decimal integers -> exactly that number (general notation: harness/C16_strtod.c)
  * and in every mode: missing key / missing section / NULL file give the caller's default. */
 #include "C16_common.h"
@@ -35,7 +36,10 @@ void harness(void) {
   pos = c16_put(0, "[s]\nk=");
   for (i = 0; i < VLEN; i++) {
     char c = (char) ND_UCHAR();
-    VASSUME(c != ';' && c != '#' && c != '"' && c != '\'' && c != '\n' && c != '\r' && c != '\v' && c != '\f' && c != '\t');
+    VASSUME(c != ';' && c != '#' && c != '"' && c != '\'' && c != '\n' && c != '\r' && c != '\v' && c != '\f');
+#ifndef GET_LIST
+    VASSUME(c != '\t');        /* tabs only in list values (item separators); elsewhere outside the compared class */
+#endif
 #ifdef GET_DOUBLE
     VASSUME(c == 0 || ref_digit(c));
 #endif
@@ -44,8 +48,8 @@ void harness(void) {
   }
   V[VLEN] = '\0';
   for (i = VLEN - 1; i >= 0; i--) if (V[i] == '\0') n = i;       /* length of V = first NUL */
-  VASSUME(n >= 1 && V[0] != ' ');
-  for (i = 0; i < VLEN; i++) if (i == n - 1) VASSUME(V[i] != ' ');
+  VASSUME(n >= 1 && V[0] != ' ' && V[0] != '\t');
+  for (i = 0; i < VLEN; i++) if (i == n - 1) VASSUME(V[i] != ' ' && V[i] != '\t');
   vm_file_len = pos + VLEN;
   dflt = ND_INT();
 
@@ -90,14 +94,16 @@ void harness(void) {
   }
 #elif defined(GET_LIST)
   {
-    /* reference split: items = maximal runs of non-blank characters between the braces */
+    /* reference split: items = maximal runs of non-blank characters between the braces, in text order; blanks (space,
+     * tab) may follow the opening brace, precede the closing brace and be repeated between items.  The comparison is
+     * positional: element number t of the returned list must be the t-th item of the text. */
     int ts[VLEN], te[VLEN], nt = 0, in = 0, wellformed, cnt = 0;
     PList *lst, *it;
     wellformed = n >= 2 && V[0] == '{';
     for (i = 0; i < VLEN; i++) if (i == n - 1 && V[i] != '}') wellformed = 0;
     for (i = 1; i < VLEN; i++) if (i < n - 1 && (V[i] == '{' || V[i] == '}')) wellformed = 0;
     for (i = 1; i < VLEN; i++) if (i < n - 1) {
-      if (V[i] != ' ') { if (!in) { in = 1; for (int t = 0; t < VLEN; t++) if (t == nt) ts[t] = i; } }
+      if (V[i] != ' ' && V[i] != '\t') { if (!in) { in = 1; for (int t = 0; t < VLEN; t++) if (t == nt) ts[t] = i; } }
       else if (in) { in = 0; for (int t = 0; t < VLEN; t++) if (t == nt) te[t] = i; nt++; }
     }
     if (in) { for (int t = 0; t < VLEN; t++) if (t == nt) te[t] = n - 1; nt++; }
@@ -119,6 +125,17 @@ void harness(void) {
       VASSERT(it == NULL, "parameter_list: not more items than the text can have");
       VASSERT(cnt == nt, "parameter_list: every blank-separated item is returned (none dropped)");
       if (nt >= 2) VWITNESS("list of two items");
+      {
+        int blank_before_close = 0, blank_after_open = n >= 3 && (V[1] == ' ' || V[1] == '\t'), tab_sep = 0, two_blanks = 0;
+        for (i = 1; i < VLEN; i++) if (i == n - 2 && (V[i] == ' ' || V[i] == '\t')) blank_before_close = 1;
+        for (i = 2; i < VLEN; i++) if (i < n - 2 && V[i] == '\t') tab_sep = 1;
+        for (i = 2; i < VLEN; i++) if (i < n - 2 && (V[i] == ' ' || V[i] == '\t') && (V[i - 1] == ' ' || V[i - 1] == '\t')) two_blanks = 1;
+        if (nt >= 2 && blank_before_close) VWITNESS("two or more items and a blank before the closing brace");
+        if (nt >= 2 && !blank_before_close) VWITNESS("two or more items and no blank before the closing brace");
+        if (nt >= 2 && blank_after_open) VWITNESS("two or more items and a blank after the opening brace");
+        if (nt >= 2 && two_blanks) VWITNESS("two or more items separated by more than one blank");
+        if (nt >= 2 && tab_sep) VWITNESS("two or more items separated by a tab");
+      }
       if (nt == 0) VWITNESS("empty list");
     }
     for (it = lst, cnt = 0; it != NULL && cnt < VLEN; it = it->next, cnt++) p_free(it->data);
